@@ -69,6 +69,10 @@ def gen(t, tier):
         # falls back to closing the descriptor - the lock is free all the same and must stay exclusive afterwards
         sc['unlink_fault'] = {'at': t.choice(6), 'errno': t.pick(['EPERM', 'EIO', 'EACCES'])}
         sc['reuse'] = bool(t.chance(0.7))
+    if t.chance(0.2):
+        # one flock() call of a contender fails for a reason other than "somebody else holds it" (no lock records left in the
+        # kernel, an interrupted call, an I/O error of a network file system): that attempt did not take the lock
+        sc['flock_fault'] = {'at': t.choice(8), 'errno': t.pick(['ENOLCK', 'ENOLCK', 'EINTR', 'EIO'])}
     return sc
 
 
@@ -95,6 +99,10 @@ def shrink(sc):
     if sc.get('unlink_fault'):
         c = copy.deepcopy(sc)
         del c['unlink_fault']
+        yield c
+    if sc.get('flock_fault'):
+        c = copy.deepcopy(sc)
+        del c['flock_fault']
         yield c
     for key, simple in (('crash', False), ('eager_time', False), ('reuse', False), ('perm', None)):
         if sc[key] != simple:
@@ -188,8 +196,20 @@ def run(sc, tape):
                 faults['unlink_error_' + uf['errno']] = faults.get('unlink_error_' + uf['errno'], 0) + 1
                 code = getattr(errno, uf['errno'])
                 raise OSError(code, os.strerror(code), str(key))
+        ff = sc.get('flock_fault')
+        if ff and op == 'flock' and proc is not None and proc.name != 'pf' and str(key).startswith(PATH):
+            n = flock_count[0]
+            flock_count[0] += 1
+            if n == ff['at']:
+                import errno
+                faults['flock_error_' + ff['errno']] = faults.get('flock_error_' + ff['errno'], 0) + 1
+                flock_failed.append((len(sched.log), int(proc.name[1:])))
+                code = getattr(errno, ff['errno'])
+                raise OSError(code, os.strerror(code))
         return None
-    if sc.get('unlink_fault'):
+    flock_count = [0]
+    flock_failed = []
+    if sc.get('unlink_fault') or sc.get('flock_fault'):
         fs.fault_hook = fault_hook
 
     def on_yield(task, kind, key):
@@ -251,7 +271,7 @@ def run(sc, tape):
         violation = {'sig': 'C07:relock-failed:%s' % style,
                      'msg': 'after all contenders were done a fresh lock() could not take the lock at once'}
     else:
-        msg = check_timeouts(sc, events, log)
+        msg = check_timeouts(sc, events, log, flock_failed)
         if msg:
             violation = {'sig': 'C07:spurious-timeout:%s' % style, 'msg': msg}
 
@@ -275,9 +295,10 @@ def run(sc, tape):
     }
 
 
-def check_timeouts(sc, events, log):
+def check_timeouts(sc, events, log, flock_failed=()):
     """a LockTimeout is justified only if >= timeout elapsed and during each try-lock attempt of the
-    waiter some other contender held (or was acquiring / releasing) the lock at some instant"""
+    waiter some other contender held (or was acquiring / releasing) the lock at some instant (or the waiter's own flock()
+    call failed with an injected error during that attempt)"""
     nc = len(sc['contenders'])
     # unavailable intervals of every contender, in log-sequence units
     unavail = []     # (tid, start_seq, end_seq)
@@ -335,7 +356,7 @@ def check_timeouts(sc, events, log):
             groups.append(cur)
             bounds = [g[0] for g in groups] + [seq]
         for a, b in zip(bounds, bounds[1:]):
-            ok = False
+            ok = any(ftid == tid and a <= fseq <= b for fseq, ftid in flock_failed)
             for utid, us, ue in unavail:
                 if utid != tid and us <= b and ue >= a:
                     ok = True
